@@ -8,10 +8,10 @@ namespace Dassh.Model.Accept
 
 inductive Err where
   | nonPositive | pitchLtDiameter | cladGtRadius | wireTooThick | pinsDoNotFit
-  | ductOdd | ductEqual | ductGePitch | outerDuctsDiffer | flowModelNoBypass | bcMissing | bcNonPositive
+  | ductOdd | ductEqual | ductGePitch | outerDuctsDiffer | flowModelNoBypass | bypassNotBelowOne | bcMissing | bcNonPositive
   deriving DecidableEq, Repr
 
-variable {α : Type} [Add α] [Sub α] [Mul α] [Div α] [OfNat α 0] [OfNat α 2] [NatCast α] [LT α] [LE α]
+variable {α : Type} [Add α] [Sub α] [Mul α] [Div α] [OfNat α 0] [OfNat α 1] [OfNat α 2] [NatCast α] [LT α] [LE α]
   [DecidableRel (α := α) (· < ·)] [DecidableRel (α := α) (· ≤ ·)] [DecidableEq α]
 
 structure Asm (α : Type) where
@@ -62,6 +62,13 @@ def firstErr : List (Except Err Unit) → Except Err Unit
   | (.error e) :: _ => .error e
   | (.ok ()) :: t => firstErr t
 
+/-- `check_core_specifications` -/
+def coreCheck (core : CoreIn α) : Except Err Unit :=
+  if core.length ≤ 0 ∨ core.asmPitch ≤ 0 then .error Err.nonPositive
+  else if 1 ≤ core.bypassFraction then .error Err.bypassNotBelowOne
+  else if core.flowGap ∧ core.bypassFraction = 0 then .error Err.flowModelNoBypass
+  else .ok ()
+
 /-- the reader's verdict on the numeric layer -/
 def accepts (s3 : α) (core : CoreIn α) (asms : List (Asm α)) (bcs : List (Option α)) : Except Err Unit :=
   firstErr (
@@ -72,7 +79,6 @@ def accepts (s3 : α) (core : CoreIn α) (asms : List (Asm α)) (bcs : List (Opt
     ++ (bcs.map fun b => match b with
         | none => .error Err.bcMissing
         | some v => if v ≤ 0 then .error Err.bcNonPositive else .ok ())
-    ++ [if core.length ≤ 0 ∨ core.asmPitch ≤ 0 then .error Err.nonPositive else .ok (),
-        if core.flowGap ∧ core.bypassFraction = 0 then .error Err.flowModelNoBypass else .ok ()])
+    ++ [coreCheck core])
 
 end Dassh.Model.Accept
